@@ -59,6 +59,9 @@ impl<'a> Tape<'a> {
     pub fn pick<'t, T>(&mut self, xs: &'t [T]) -> &'t T {
         &xs[self.below(xs.len())]
     }
+    pub fn pick_str(&mut self, xs: &[&'static str]) -> &'static str {
+        xs[self.below(xs.len())]
+    }
     /// Index into a weight table (simplest first).
     pub fn weighted(&mut self, w: &[u32]) -> usize {
         let total: u32 = w.iter().sum();
